@@ -39,6 +39,9 @@ def table():
     el('hyperu[1.5,0.5]', lambda v: ss.hyperu(1.5, 0.5, v), (0.5, 2), mp and (lambda v: mp.hyperu(1.5, 0.5, v)), f=lambda x: sp.hyperu(1.5, 0.5, x), tol=1e-7)
     el('pow[3]', lambda v: v ** 3, (-1, 1), mp and (lambda v: v ** 3), f=lambda x: x ** 3); el('pow[2.5]', lambda v: v ** 2.5, (0.3, 2), mp and (lambda v: v ** 2.5), f=lambda x: x ** 2.5)
     el('pow[-2]', lambda v: v ** -2.0, (0.4, 2), mp and (lambda v: v ** -2), f=lambda x: x ** (-2)); el('rpow[2]', lambda v: 2.0 ** v, (-1, 1), mp and (lambda v: mp.mpf(2) ** v), f=lambda x: 2.0 ** x)
+    # negative base points: integer-valued exponents (negative ints, integer-valued floats, numpy integers) are smooth there
+    el('pow[-2][neg]', lambda v: v ** -2.0, (-2, -0.4), mp and (lambda v: v ** -2), f=lambda x: x ** (-2)); el('pow[3.0][neg]', lambda v: v ** 3.0, (-2, -0.4), mp and (lambda v: v ** 3), f=lambda x: x ** 3.0)
+    el('pow[int64 -1][neg]', lambda v: v ** -1.0, (-2, -0.4), mp and (lambda v: 1 / v), f=lambda x: x ** numpy.int64(-1)); el('pow[-2.0][neg]', lambda v: v ** -2.0, (-2, -0.4), mp and (lambda v: v ** -2), f=lambda x: x ** -2.0)
     el('pow[fn,3]', lambda v: numpy.power(v, 3), (-1, 1), mp and (lambda v: v ** 3), f=lambda x: a.pow(x, 3)); el('pow[fn,2.5]', lambda v: numpy.power(v, 2.5), (0.3, 2), mp and (lambda v: v ** 2.5), f=lambda x: a.pow(x, 2.5))
     el('clip[inside]', lambda v: numpy.clip(v, 0.1, 0.9), (0.3, 0.7), mp and (lambda v: v), f=lambda x: sp.botched_clip(0.1, 0.9, x))
     el('clip[above]', lambda v: numpy.clip(v, 0.1, 0.2), (0.3, 0.7), mp and (lambda v: v * 0 + mp.mpf('0.2')), f=lambda x: sp.botched_clip(0.1, 0.2, x))
